@@ -78,10 +78,10 @@ func (*c14Prop) Components() map[string]interface{} {
 func (*c14Prop) Plans(tier string) []Plan {
 	if tier == "quick" {
 		return []Plan{
-			{Name: "plain", Workers: 16, Runs: 4000, MaxTime: 30e9},
-			{Name: "race", Race: true, Workers: 16, Runs: 2500, MaxTime: 35e9},
+			{Name: "plain", Workers: 16, Runs: 3000, MaxTime: 30e9},
+			{Name: "race", Race: true, Workers: 16, Runs: 1800, MaxTime: 35e9},
 			{Name: "race-cold", Race: true, Workers: 16, Runs: 1, MaxTime: 30e9, Cold: true},
-			{Name: "deep", Variant: 1, Workers: 8, Runs: 8, MaxTime: 25e9},
+			{Name: "deep", Variant: 1, Workers: 8, Runs: 6, MaxTime: 25e9},
 		}
 	}
 	return []Plan{
@@ -412,11 +412,22 @@ func c14Run(c *c14Case, probeSequential bool) Verdict {
 	for i := range c.Graphs {
 		shared[i] = c.Graphs[i].construct()
 	}
-	for i := range c.Warm {
-		w := &c.Warm[i]
-		if w.Graph >= 0 && w.Graph < len(shared) {
-			soloObserve(w, shared[w.Graph])
-			v.Probes["warm_up_parses"]++
+	if len(c.Warm) > 0 {
+		// the warm-up parses run as ONE simulated task under a step budget: an ambiguous
+		// seeded grammar can blow up on a generated input, and nothing outside the
+		// simulator bounds a parse
+		winfo := runTasks(1, &SchedSpec{HasExpl: true, StepCap: 3000000}, func(int64) {
+			for i := range c.Warm {
+				w := &c.Warm[i]
+				if w.Graph >= 0 && w.Graph < len(shared) {
+					soloObserveRaw(w, shared[w.Graph])
+				}
+			}
+		})
+		v.Probes["warm_up_parses"] += int64(len(c.Warm))
+		if winfo.OverBudget || winfo.Deadlock {
+			v.Discard = "budget"
+			return v
 		}
 	}
 	before := snapshotRoots()
@@ -569,6 +580,10 @@ func c14Run(c *c14Case, probeSequential bool) Verdict {
 			twin = twins[t.Graph]
 		}
 		solo := soloObserve(t, twin)
+		if solo == soloOverBudget {
+			v.Discard = "budget"
+			return v
+		}
 		if end.Aborted == 1 {
 			v.Probes["aborted_tasks"]++
 		} else if end.Aborted != 0 {
@@ -591,7 +606,10 @@ func c14Run(c *c14Case, probeSequential bool) Verdict {
 			same = owned[i]
 		}
 		if same != nil {
-			if post := soloObserve(t, same); post != solo {
+			if post := soloObserve(t, same); post == soloOverBudget {
+				v.Discard = "budget"
+				return v
+			} else if post != solo {
 				v.Violation, v.Class = true, "diverge:after"
 				v.Detail = fmt.Sprintf("graph used by task %d (%s, input %q) answers differently after the concurrent phase\n  same graph: %s\n  twin graph: %s", i, graphKind(c, t), t.Input, clip(post), clip(solo))
 				return v
@@ -609,13 +627,28 @@ func c14Run(c *c14Case, probeSequential bool) Verdict {
 	return v
 }
 
-func soloObserve(t *c14Task, p parsley.Parser) (obs string) {
+const soloOverBudget = "SOLO-OVER-BUDGET"
+
+// soloObserveRaw runs one parse on the calling goroutine (inside or outside a simulation).
+func soloObserveRaw(t *c14Task, p parsley.Parser) (obs string) {
 	defer func() {
 		if r := recover(); r != nil {
 			obs = fmt.Sprintf("TASK-PANIC %v", r)
 		}
 	}()
 	return t.observe(p)
+}
+
+// soloObserve runs one parse alone, as a single simulated task under a step budget:
+// nothing outside the simulator bounds a parse (an aborted task's input was never run
+// to completion in the concurrent phase).
+func soloObserve(t *c14Task, p parsley.Parser) string {
+	var obs string
+	info := runTasks(1, &SchedSpec{HasExpl: true, StepCap: 600000000}, func(int64) { obs = soloObserveRaw(t, p) })
+	if info.OverBudget || info.Deadlock {
+		return soloOverBudget
+	}
+	return obs
 }
 
 func graphKind(c *c14Case, t *c14Task) string {
